@@ -18,6 +18,9 @@ type FaultDB struct {
 	// context (it may park the caller: the simulator's write gate).
 	EnterCtx func(ctx context.Context)
 	Calls    map[string]int
+	// FailNextInit, if set, is returned by the next Init (once): a transient failure of the
+	// first database step of a start.
+	FailNextInit error
 	// Statements: also report (and allow failing) selected statements inside a Write
 	// as boundaries "db.stmt.<Method>".
 	Statements bool
@@ -50,6 +53,14 @@ func (f *FaultDB) hook(point string) error {
 }
 
 func (c *faultClient) Init(ctx context.Context, g imap.UIDValidityGenerator) error {
+	if err := c.b.FailNextInit; err != nil {
+		c.b.FailNextInit = nil
+		if c.b.Calls == nil {
+			c.b.Calls = map[string]int{}
+		}
+		c.b.Calls["db.init.error"]++
+		return err
+	}
 	return c.inner.Init(ctx, g)
 }
 
